@@ -19,6 +19,7 @@ import (
 	"github.com/verily-src/fhirpath-go/internal/fhir"
 	"google.golang.org/protobuf/proto"
 	"google.golang.org/protobuf/reflect/protoreflect"
+	"google.golang.org/protobuf/types/known/anypb"
 )
 
 type c02Case struct {
@@ -44,6 +45,102 @@ func c02Gen(s Src) c02Case {
 		c.Alias = 1 + s.Intn(1<<20)
 	}
 	return c
+}
+
+// c02EnumEmbedded: resources that embed other resources at every place R4 allows it - an
+// Any-packed `contained`, Bundle.entry.resource / response.outcome, and the one singular
+// embedded resource, Parameters.parameter.resource (also inside `part`) - forced to be there.
+func c02EnumEmbedded(yield func(c02Case)) {
+	n := 0
+	for _, e := range []struct {
+		typ   string
+		force []string
+	}{{"Parameters", []string{"parameter", "resource", "part"}}, {"Parameters", []string{"parameter", "resource"}}, {"Bundle", []string{"entry", "resource", "response", "outcome"}}, {"Bundle", []string{"entry", "resource"}},
+		{"Patient", []string{"contained"}}, {"Observation", []string{"contained"}}, {"MedicationRequest", []string{"contained"}}, {"List", []string{"contained"}}} {
+		for k := 0; k < 6; k++ {
+			n++
+			r := genResource(fixedSrc{7000 + n*131}, e.typ, genOpts{MaxDepth: 3, Budget: 60, P0: 12, ForceDeep: e.force})
+			yield(c02Case{Type: e.typ, Res: resToText(r), Mix: n * 2654435761 % (1 << 16), res: r})
+		}
+	}
+}
+
+// c02SingularAny: for every name path that ends at a singular Any-typed element holding a
+// packed resource, the dotted path yields exactly the embedded resources, in document order -
+// the resources themselves (equal to the packed content), not the Any and not the wrapper.
+func c02SingularAny(ctx *Ctx, c c02Case, res proto.Message) {
+	found := map[string][]proto.Message{}
+	var order []string
+	var walk func(m protoreflect.Message, path []string, depth int)
+	walk = func(m protoreflect.Message, path []string, depth int) {
+		if depth > 6 {
+			return
+		}
+		fs := m.Descriptor().Fields()
+		for i := 0; i < fs.Len(); i++ {
+			f := fs.Get(i)
+			if f.Message() == nil || !m.Has(f) || f.ContainingOneof() != nil {
+				continue
+			}
+			p := append(append([]string{}, path...), f.JSONName())
+			if f.Message().FullName() == "google.protobuf.Any" {
+				if f.IsList() {
+					continue
+				}
+				a, ok := m.Get(f).Message().Interface().(*anypb.Any)
+				if !ok {
+					continue
+				}
+				inner, err := a.UnmarshalNew()
+				if err != nil {
+					continue
+				}
+				im := inner.ProtoReflect()
+				if im.Descriptor().Oneofs().Len() == 1 {
+					if fd := im.WhichOneof(im.Descriptor().Oneofs().Get(0)); fd != nil {
+						key := strings.Join(p, ".")
+						if _, seen := found[key]; !seen {
+							order = append(order, key)
+						}
+						found[key] = append(found[key], im.Get(fd).Message().Interface())
+					}
+				}
+				continue
+			}
+			if f.IsList() {
+				l := m.Get(f).List()
+				for j := 0; j < l.Len(); j++ {
+					walk(l.Get(j).Message(), p, depth+1)
+				}
+			} else if !f.IsMap() {
+				walk(m.Get(f).Message(), p, depth+1)
+			}
+		}
+	}
+	walk(res.ProtoReflect(), nil, 0)
+	ctx.Eval(c.Res, len(order) > 0, "singular-embedded-resource")
+	for _, key := range order {
+		// the deeper `part` levels repeat the same name path: collect only paths without a repeated suffix ambiguity
+		src := c.Type + "." + key
+		out := evalWith(src, []fhir.Resource{res.(fhir.Resource)}, nil)
+		if out.Panic != "" || out.CompileErr != nil || out.Err != nil {
+			ctx.Fail("nav singular embedded resource: "+out.kind(), fmt.Sprintf("%s: %s", src, out))
+			return
+		}
+		want := found[key]
+		if len(out.Coll) != len(want) {
+			ctx.Fail("nav singular embedded resource: count-mismatch", fmt.Sprintf("%s: want %d got %s", src, len(want), clip(out.String(), 300)))
+			return
+		}
+		for i, x := range out.Coll {
+			gm, ok := x.(proto.Message)
+			if _, isRes := x.(fhir.Resource); !ok || !isRes || !proto.Equal(gm, want[i]) {
+				ctx.Fail("nav singular embedded resource: the path does not yield the embedded resource itself", fmt.Sprintf("%s item %d: got a %T, want the %T packed there", src, i, x, want[i]))
+				return
+			}
+		}
+		ctx.Count("singular_embedded_resource_paths_checked")
+	}
 }
 
 func kebab(enumName string) string {
@@ -248,8 +345,11 @@ func c02Run(ctx *Ctx, c c02Case) {
 	}
 	root, perrs, err := buildTree(res)
 	if err != nil {
+		// google/fhir's marshaller has no rendering for the one singular embedded resource of R4
+		// (Parameters.parameter.resource, a bare Any): without a JSON tree, the paths that end at
+		// such a resource are checked against a descriptor walk instead
 		ctx.Count("marshal_errors")
-		ctx.Eval(c.Res, false)
+		c02SingularAny(ctx, c, res)
 		return
 	}
 	if len(perrs) > 0 {
@@ -486,6 +586,7 @@ func TestC02(t *testing.T) {
 		"a case is one generated resource (30% of them with 1–3 positions rewired to hold a message object that also sits elsewhere in the resource: shared sub-messages, which the text form cannot express and which are applied from a number stored in the case; type drawn uniformly from the 146 R4 types, fields populated by a descriptor walk); every element path of its google/fhir JSON rendering is evaluated un-indexed, fully indexed, mixed, without the root type, with a mismatching root, with `.value` on date/time leaves and with non-element names appended; an evaluation is one (resource, source string); non-trivial = path length ≥ 2 selecting ≥ 1 node (or a negative program on a non-empty parent); distinct = FNV-64 of (resource text, source)",
 		"google/fhir jsonformat defines the FHIR JSON rendering", "un-indexed spellings are asserted only where every prefix selects nodes of one type (the statement is silent on heterogeneous collections)", "fraction digits beyond milliseconds are outside System DateTime/Time")
 	runProperty(t, r,
+		Stage[c02Case]{Name: "embedded-resources", Enum: c02EnumEmbedded, Run: c02Run},
 		Stage[c02Case]{Name: "resources", Gen: c02Gen, Run: c02Run, N: pick(600, 4000)},
 	)
 }
